@@ -120,3 +120,26 @@ PROPS["C19"] = {
                                  "reflection-based construction of config values (func-typed fields as tagged reflect.MakeFunc closures)"],
     "assumptions": ["'set' means different from the Go zero value (the library's own convention)"],
 }
+
+TB_SCHED = ["the cooperative scheduler and the instrumented vatomic/vsync packages (vsched/, ~400 lines): goroutines are serialised, so the explored executions are the sequentially consistent interleavings of the instrumented operations (Go's sync/atomic is sequentially consistent)",
+            "import-path substitution applied to a scratch copy of the working tree (found by scanning imports on every run)"]
+PROPS["C04"] = {
+    "components": [Sched("gauge", 3000, 100000, exhaustive_limit=3000)],
+    "rule": "gauge: 2-5 callers with outcomes success/failure/panic/failing fallback/panicking fallback race on one circuit with run and fallback limits in {-1,0,1,2,3}; every atomic operation and a marker inside the run/fallback functions is a scheduling point; "
+            "random schedules plus DFS over all schedules of small 2-caller configurations; a run is distinct by (configuration, schedule) and every schedule of >= 2 callers is non-trivial",
+    "trusted_base": TB_COMMON + TB_SCHED,
+    "assumptions": ["limits are static during a run (live limit changes belong to C11)"],
+}
+PROPS["C14"] = {
+    "components": [Sched("rc", 3000, 200000, exhaustive_limit=3000)],
+    "rule": "rc: 2-4 threads each running one or two of Inc/RollingSumAt/GetBuckets/Reset on one RollingCounter, timestamps in the same bucket / adjacent buckets (racing roll-over) / a window apart; every atomic step is a scheduling point; random schedules plus DFS over all schedules of 2 threads x 1 op; distinct by (configuration, schedule)",
+    "trusted_base": TB_COMMON + TB_SCHED,
+    "assumptions": [],
+}
+
+PROPS["C11"] = {
+    "components": [Sched("cfg", 4000, 150000)],
+    "rule": "cfg: one Execute (success / failure / context-error outcome, live or cancelled caller context, closed or open circuit) races one SetConfigThreadSafe changing exactly one setting (run limit, timeout, fallback limit, ForceOpen, ForcedClosed, Disabled, Fallback.Disabled, IgnoreInterrupts; 23 old->new pairs); the observed outcome must equal the outcome under the old or under the new configuration; distinct by (configuration, schedule)",
+    "trusted_base": TB_COMMON + TB_SCHED,
+    "assumptions": ["partial by nature: the Go memory model, fairness and network-facing diagnostics are outside the model"],
+}
